@@ -32,7 +32,7 @@ type snap struct {
 }
 
 type G struct {
-	nbuf int
+	nbuf  int
 	h     *hx.H
 	focus string
 	root  string
@@ -340,7 +340,10 @@ func (g *G) sizes(n int, passB bool) []int {
 		case 1:
 			out[i] = n/2 + r.Intn(n/2)
 		case 2:
-			out[i] = 4 + r.Intn(12)
+			out[i] = 4 + r.Intn(12) // tiny windows; at the larger bit lengths at most ~48 per pass (every point of every window is resumed)
+			if out[i] < n/48 {
+				out[i] = n/48 + r.Intn(5)
+			}
 		case 3:
 			out[i] = n / 4
 		case 4:
